@@ -10,6 +10,9 @@ LEVEL_NOTE = ("Trusted: Lean 4.33 kernel (+leanchecker in thorough); axioms limi
 
 # property id -> (technique, level text, design ref, extra note)
 CLAIMED = {
+ "C02": ("Lean 4 proof (rounding lemma for the big.Float model, definitional unfolding of the operation methods) + differential correspondence with the Go implementation",
+         "Machine-checked: every arithmetic result is the exact result rounded to nearest at the documented precision (half-ulp bound, exact when it fits), division by zero gives the signed infinity, comparison is exact, truth tables, list/tuple/object lookups return the constructed members, wrong-typed operands are rejected; the model reproduces math/big results bit for bit on every generated operand pair (exact mantissa/exponent/precision compared).",
+         "DESIGN.md §6 C02", "division's half-ulp bound and modulo are covered by correspondence + rational-arithmetic predicates, not yet by a theorem; math/big itself is trusted"),
  "C07": ("Lean 4 proof (structural induction on the type model) + differential correspondence with the Go implementation",
          "Machine-checked theorems for all types of any depth: Equals is structural identity (hence an equivalence), conformance = equality up to optional annotations after filling placeholders, HasDynamicTypes = occurrence, annotation stripping idempotent and touching nothing else, type-JSON round trip at token-tree level. The model functions are transliterations of the Go methods and are diffed against /repo on every run, exhaustively for small types.",
          "DESIGN.md §6 C07", "byte-level JSON lexing is encoding/json's and is not modelled"),
